@@ -98,3 +98,69 @@ def order_caller(xs: list[fp.Real]):
     return xs[0] + setfirst(xs)
 
 ALL = [order_caller, call_in_comprehension, call_in_ifexpr, hyp, ctx_caller, mutating_caller, name_clash_caller, call_in_loop, arg_order, nested_with_caller, hoistable, chain]
+
+# ---------------------------------------------------------------------------------------------------------
+# shapes added with the xgen upgrade
+
+SCALE = 2.5
+NEGZ_FREE = 0.0
+TABLE = [1.0, 0.5, 0.25]
+
+@fp.fpy(ctx=fp.MPFloatContext(3, fp.RM.RTZ))
+def coarse(x: fp.Real, y: fp.Real):
+    t = x / 3
+    with fp.FP32:
+        u = t + y / 7
+        return u * SCALE
+
+@fp.fpy
+def shares_names(t: fp.Real, t0: fp.Real):
+    i = t + t0
+    n = 0
+    for i in range(3):
+        n = n * 2 + i + t
+    (t, t0) = (t0, n)
+    return t - t0 + i
+
+@fp.fpy
+def drain(xs: list[fp.Real]):
+    if len(xs) > 0:
+        xs[0] = xs[0] - 1
+    return (xs[0] if len(xs) > 0 else -1)
+
+@fp.fpy
+def uses_helpers(t: fp.Real, xs: list[fp.Real], c: fp.Context):
+    i = coarse(t, 1) + shares_names(t, 2)
+    with c:
+        t0 = coarse(i, t) + i
+        with fp.MPFloatContext(4, fp.RM.RAZ):
+            n = shares_names(t0, coarse(t, t)) / 3
+    acc = 0
+    for t3 in TABLE:
+        acc = acc * 2 + shares_names(t3, acc)
+    return (i, t0, n, acc, SCALE)
+
+@fp.fpy
+def call_in_lazy_places(xs: list[fp.Real], a: fp.Real):
+    k = 0
+    while drain(xs) > 0 and k < 5:
+        with fp.INTEGER:
+            k = k + 1
+    b = a > 0 and drain(xs) > -5
+    c = (drain(xs) if a > 1 else a)
+    zs = [drain(xs) + y for y in xs]
+    return (k, b, c, zs, xs)
+
+@fp.fpy
+def ctx_in_loop(xs: list[fp.Real], p: fp.Real):
+    ctx = 0.5
+    acc = 0
+    for x in xs:
+        with fp.IEEEContext(5, 16, fp.RM.RTP):
+            acc = acc + x / 3
+        with fp.MPFloatContext(p + 2):
+            acc = acc * ctx + 1 / 3
+    return (acc, ctx)
+
+ALL += [uses_helpers, call_in_lazy_places, ctx_in_loop]
+META = {'uses_helpers': {'kinds': ['R', 'L', 'C']}, 'ctx_in_loop': {'kinds': ['L', 'Q'], 'quadratic': False}}
